@@ -4,7 +4,7 @@
 # the demo fails; without it the demo passes.
 set -u
 WT="$1"; DEMO="$2"; shift 2
-export CARGO_TARGET_DIR=/tmp/confirm_target
+export CARGO_TARGET_DIR=${CONFIRM_TARGET:-/tmp/confirm_target}
 cd "$WT" || exit 2
 t() { find src tests -name '*.rs' -exec touch {} +; }
 echo "== with patch: pinned suite (demo moved aside)"
